@@ -3293,10 +3293,19 @@ class Mailbox:
         #       have the flag 'ignored' set on them.
         #
         sub_clause = "AND subscribed=1" if filter_subscribed else ""
+
+        # INBOX is case-insensitive (and stored as 'inbox'): it matches if the
+        # pattern matches its name in any case.
+        #
+        inbox_clause = (
+            "OR name='inbox'"
+            if re.search(mbox_re, "INBOX", re.IGNORECASE)
+            else ""
+        )
         query = (
-            "SELECT name,attributes,subscribed FROM mailboxes WHERE name "
-            f"regexp ? {sub_clause} AND attributes NOT LIKE '%ignored%' "
-            "ORDER BY name"
+            "SELECT name,attributes,subscribed FROM mailboxes WHERE (name "
+            f"regexp ? {inbox_clause}) {sub_clause} "
+            "AND attributes NOT LIKE '%ignored%' ORDER BY name"
         )
         logger.debug("*** Query: %s", query)
         async for mbox_name, attributes, subscribed in server.db.query(
@@ -3368,7 +3377,10 @@ class Mailbox:
             if mbox_name.lower() == "inbox":
                 mbox_name = "INBOX"
 
-            if pattern_re.search(mbox_name):
+            if pattern_re.search(mbox_name) or (
+                mbox_name == "INBOX"
+                and re.search(mbox_re, "INBOX", re.IGNORECASE)
+            ):
                 # Matches both selection criteria and pattern.
                 #
                 if subscribed_selection and subscribed:
